@@ -11,6 +11,7 @@ mod p_rules;
 mod p_docs;
 mod p_md;
 mod p_gen;
+mod p_upd;
 
 use std::io::{BufWriter, Write};
 
@@ -34,6 +35,7 @@ fn main() {
         "rules" => p_rules::main(&args[1..], &mut w),
         "docs" => p_docs::main(&args[1..], &mut w),
         "gen" => p_gen::main(&args[1..], &mut w),
+        "upd" => p_upd::main(&args[1..], &mut w),
         "consts" => p_consts::main(&args[1..], &mut w),
         x => { eprintln!("unknown subcommand {}", x); std::process::exit(2); }
     }
